@@ -137,8 +137,11 @@ def d8(ctx, rep, prog):
     pde = prog.find('parse_dir_entry', crate='typeshare#bin')
     kids = [k for k in prog.region(pp) if prog.bodies[k]['kind'] == 'closure']
     roots = [k for k in kids if any(p in prog.reach([k]) for p in pde)]
-    if not roots or not pde:
-        raise core.Incomplete('D8: walker callback (closure of parallel_parse reaching parse_dir_entry) not found')
+    if not roots:
+        # found by role: the closure the walker invokes once per directory entry (its argument is Result<DirEntry, ignore::Error>)
+        roots = [k for k in kids if str(prog.bodies[k]['locals'].get('_2', '')).replace(' ', '').startswith('std::result::Result<ignore::DirEntry,')]
+    if not roots:
+        raise core.Incomplete('D8: walker callback (a closure of parallel_parse that reaches parse_dir_entry, or takes the walker\'s Result<DirEntry, Error>) not found')
     pred = prog.reach(roots)
     hits = []
     for k in pred:
